@@ -23,9 +23,11 @@ ParseScenarios == {"ok", "parse-error", "missing-file"}
 \* "unknown-world": --world names a world the WIT package does not contain (with or without other worlds)
 TargetsScenarios == {"ok", "mismatch", "missing-file", "unknown-world"}
 
+\* srcdir: the document is given with a directory component (sub/in.wac); relative dependency
+\* locations (the default `deps`, --deps-dir, --dep paths) are relative to the working directory
 ComposeRows ==
   [cmd : {"compose"}, scenario : ComposeScenarios, t : BOOLEAN, o : BOOLEAN, import_deps : BOOLEAN,
-   no_validate : BOOLEAN, deps : {"default-dir", "deps-dir", "dep-override"}]
+   no_validate : BOOLEAN, deps : {"default-dir", "deps-dir", "dep-override"}, srcdir : BOOLEAN]
 PlugRows == [cmd : {"plug"}, scenario : PlugScenarios, t : BOOLEAN, o : BOOLEAN, plugs : {1, 2, 3}]
 ParseRows == [cmd : {"parse"}, scenario : ParseScenarios]
 TargetsRows == [cmd : {"targets"}, scenario : TargetsScenarios, world : BOOLEAN]
@@ -65,7 +67,7 @@ TableLaws ==
 
 RowJson(r) ==
   IF r.cmd = "compose" THEN [cmd |-> r.cmd, scenario |-> r.scenario, t |-> r.t, o |-> r.o, import_deps |-> r.import_deps,
-                              no_validate |-> r.no_validate, deps |-> r.deps, plugs |-> 0, world |-> FALSE]
+                              no_validate |-> r.no_validate, deps |-> r.deps, plugs |-> 0, world |-> r.srcdir]
   ELSE IF r.cmd = "plug" THEN [cmd |-> r.cmd, scenario |-> r.scenario, t |-> r.t, o |-> r.o, import_deps |-> FALSE,
                                 no_validate |-> FALSE, deps |-> "-", plugs |-> r.plugs, world |-> FALSE]
   ELSE IF r.cmd = "parse" THEN [cmd |-> r.cmd, scenario |-> r.scenario, t |-> FALSE, o |-> FALSE, import_deps |-> FALSE,
